@@ -801,10 +801,14 @@ func guardsAt(b *ssa.BasicBlock) []Atom {
 		for idx := 0; idx < 2; idx++ {
 			if edgeDominates(a, idx, b) {
 				for _, g := range expandCond(iff.Cond, idx == 0, 0) {
+					if inner := helperAtoms(g); len(inner) > 0 {
+						// the helper's answer is replaced by what it stands for
+						out = append(out, inner...)
+						continue
+					}
 					if at, ok := condAtom(g.Cond, g.Positive); ok {
 						out = append(out, at.canon())
 					}
-					out = append(out, helperAtoms(g)...)
 				}
 			}
 		}
@@ -837,7 +841,6 @@ func helperAtoms(g rawGuard) []Atom {
 	rets := returnsOf(h)
 	if len(rets) == 1 {
 		inner = append(inner, expandCond(derefCell(resultOf(rets[0], 0)), g.Positive, 1)...)
-		inner = inner[1:] // not the returned value itself (it is the call, seen from outside)
 	} else {
 		var match []*ssa.Return
 		for _, r := range rets {
@@ -850,7 +853,7 @@ func helperAtoms(g rawGuard) []Atom {
 		}
 		inner = rawGuardsAtDepth(match[0].Block(), 1)
 		if _, isC := constBool(derefCell(resultOf(match[0], 0))); !isC {
-			inner = append(inner, expandCond(derefCell(resultOf(match[0], 0)), g.Positive, 1)[1:]...)
+			inner = append(inner, expandCond(derefCell(resultOf(match[0], 0)), g.Positive, 1)...)
 		}
 	}
 	env := map[*ssa.Parameter]ssa.Value{}
@@ -863,8 +866,9 @@ func helperAtoms(g rawGuard) []Atom {
 	saved := valNameEnv
 	valNameEnv = env
 	for _, ig := range inner {
-		if _, isCall := ig.Cond.(*ssa.Call); isCall {
-			continue
+		switch ig.Cond.(type) {
+		case *ssa.Call, *ssa.Phi, *ssa.Parameter, *ssa.Const:
+			continue // not a comparison: says nothing by itself
 		}
 		if at, ok := condAtom(ig.Cond, ig.Positive); ok {
 			out = append(out, at.canon())
